@@ -119,6 +119,8 @@ Section Grader.
   Variable uses_fact : str -> bool.                                    (* 'fact' in parse(expr).functions_used          *)
   Variable uses_factorial : str -> bool.
   Variable eval_limit : str -> list str -> nat -> outcome pyv.         (* evaluator(expr, scope of sample i, allow_inf) *)
+  (* parse(summand).check_scope(scope + {var: 0}, functions, suffixes): every name the summand uses is available *)
+  Variable scope_check : str -> list str -> str -> outcome unit.
   Variable eval_term : str -> list str -> str -> Z -> nat -> outcome V. (* evaluator(expr, scope + {var: n})             *)
   Variable valid_name : str -> outcome bool.                           (* is_valid_variable_name                        *)
 
@@ -126,17 +128,20 @@ Section Grader.
 
   (* ---- SumGrader.evaluate_sum with SummationGraderBase.get_limits_and_funcs ---- *)
   (* everything up to the arguments of range(): dummy-variable check, limits, parse of the summand,
-     limit checks, cutoff choice, then perform_summation's plan *)
+     limit checks, scope check of the summand, cutoff choice, then perform_summation's plan *)
   Definition evaluate_sum_plan (summand lower upper var : str) (scope : list str) (i : nat) : outcome (Z * Z * Z) :=
     bind (evaluate_sum_pre (tb (mem var scope))) (fun _ =>
     bind (eval_limit lower scope i) (fun lo =>
     bind (eval_limit upper scope i) (fun hi =>
     bind (parses summand) (fun _ =>
     bind (evaluate_sum_limits lo hi) (fun _ =>
+    (* the summand's names are checked even when no term will be summed (parse hits the cache) *)
+    bind (parses summand) (fun _ =>
+    bind (scope_check summand scope var) (fun _ =>
     bind (evaluate_sum_cutoff (tb (uses_fact lower || uses_fact upper || uses_fact summand))
                               (tb (uses_factorial lower || uses_factorial upper || uses_factorial summand))
                               (c_infty_val_fact cfg) (c_infty_val cfg)) (fun cut =>
-    summation_plan lo hi (c_even_odd cfg) cut)))))).
+    summation_plan lo hi (c_even_odd cfg) cut)))))))).
 
   (* = ... perform_summation eval_summand lo hi even_odd cut (Proofs/Summation.v: evaluate_sum_unfold) *)
   Definition evaluate_sum (summand lower upper var : str) (scope : list str) (i : nat) : outcome V :=
@@ -162,12 +167,17 @@ Section Grader.
     | Raise e => if is_mitx e then Raise EConfig else Raise e       (* except MITxError -> ConfigError *)
     end.
 
+  (* an instructor variable (deleted from the student's scope) cannot be the student's summation variable *)
+  Definition student_eval (student : list str) (i : nat) : outcome V :=
+    if mem (f_var student) blacklist then Raise (ESummation MConflict)
+    else evaluate_fields student student_scope i.
+
   Fixpoint gen_evaluations (student : list str) (todo : list nat) : outcome (list (V * V)) :=
     match todo with
     | [] => Ret []
     | i :: rest =>
         bind (author_eval i) (fun a =>
-        bind (evaluate_fields student student_scope i) (fun s =>
+        bind (student_eval student i) (fun s =>
         bind (gen_evaluations student rest) (fun r => Ret ((a, s) :: r))))
     end.
 
